@@ -243,7 +243,13 @@ fn main() {
             std::process::exit(2)
         });
         let rcfg = RunCfg { property: static_id(id), tier: Tier::Quick, seed: 0, workers: 1, scale: 1.0, root: root.clone() };
-        match replay_check(id, &v, &rcfg) {
+        // (a case may have been found by a worker running under the evaluate-everything log
+        // subscriber: replay plainly first, then under that subscriber)
+        let verdict = match replay_check(id, &v, &rcfg) {
+            Some(Ok(())) => plv::runner::maybe_traced(true, || replay_check(id, &v, &rcfg)),
+            other => other,
+        };
+        match verdict {
             None => {
                 eprintln!("unknown property {id}");
                 std::process::exit(2)
